@@ -745,8 +745,8 @@ func init() {
 					if len(ep) == 0 {
 						continue
 					}
-					for _, x := range ep {
-						if x.Num == nil && (strings.Contains(x.Lit, "//") || strings.Contains(x.Lit, "..") || strings.HasSuffix(x.Lit, "/")) {
+					for xi, x := range ep {
+						if x.Num == nil && (strings.Contains(x.Lit, "//") || strings.Contains(x.Lit, "..") || (xi == len(ep)-1 && strings.HasSuffix(x.Lit, "/"))) {
 							panic(unsupported("path.Join of a structured string that needs cleaning"))
 						}
 					}
